@@ -23,6 +23,7 @@
 //	c17.ro_dir_mount        fsconfig.go WithReadOnlyDirMount                  the statements of the function
 //	c03.drop_range_units    interpreter/compiler.go getFrameDropRange         the three quantities the drop range is computed from
 //	c04.type_of_import      wasm/module.go typeOfFunction                     the scan over the import section: counter initialisation, loop header, skip condition
+//	c05.byte_reg_rex        amd64/instr_encoding.go                            every condition under which an encoding forces a REX prefix for a byte register
 //	c09.compiled_fields     wazevo/engine.go compiledModule, interpreter compiledFunction   field names of what is shared by all instances
 package main
 
@@ -384,6 +385,38 @@ func main() {
 			return true
 		})
 		add("c04.type_of_import", strings.Join(parts, " ;; "))
+	}
+	{
+		f, err := parser.ParseFile(fset, filepath.Join(*repo, "internal/engine/wazevo/backend/isa/amd64/instr_encoding.go"), nil, 0)
+		if err != nil {
+			die("%v", err)
+		}
+		var conds []string
+		forced := 0
+		ast.Inspect(f, func(n ast.Node) bool {
+			switch x := n.(type) {
+			case *ast.IfStmt:
+				direct := false
+				for _, st := range x.Body.List {
+					if as, ok := st.(*ast.AssignStmt); ok && strings.Contains(src(as), ".always()") {
+						direct = true
+					}
+				}
+				if direct {
+					c := src(x.Cond)
+					if x.Init != nil {
+						c = src(x.Init) + "; " + c
+					}
+					conds = append(conds, c)
+				}
+			case *ast.AssignStmt:
+				if strings.Contains(src(x), ".always()") {
+					forced++
+				}
+			}
+			return true
+		})
+		add("c05.byte_reg_rex", fmt.Sprintf("%d assignments of an always-REX prefix; guarded: %s", forced, strings.Join(conds, " ;; ")))
 	}
 	add("c09.compiled_fields", "wazevo.compiledModule: "+structFields(*repo, "internal/engine/wazevo/engine.go", "compiledModule")+
 		" ;; interpreter.compiledFunction: "+structFields(*repo, "internal/engine/interpreter/interpreter.go", "compiledFunction"))
